@@ -88,8 +88,8 @@ def runOp (words : List String) : String :=
     match load (fromHex dumpHex) with
     | .ok p =>
       let r := execute p (trace == "1") 10000000
-      let show_ (tag : String) (vm : VM) (err : Option Bytes) : String :=
-        let e := match err with | some m => toHex m | none => "-"
+      let show_ (tag : String) (vm : VM) (h : Halt) : String :=
+        let e := match h.err with | some m => toHex m | none => "-"
         s!"{tag} err={e} out={hexOrDash (outBytes vm.out)} log={hexOrDash vm.log.reverse.flatten} blocks={"+".intercalate (vm.result.map fmtBlock)} binding={fmtBinding vm.binding} xstats={vm.tosMax},{vm.blockTosMax},{vm.opsRead},{vm.pc}"
       match r with
       | .done vm err => show_ "done" vm err
@@ -103,8 +103,8 @@ def runOp (words : List String) : String :=
     if c.stuck then "STUCK" else
     if !c.ok then s!"rejected log={hexOrDash c.log}" else
     match execute c.prog false 10000000 with
-    | .done vm err =>
-      let e := match err with | some m => toHex m | none => "-"
+    | .done vm h =>
+      let e := match h.err with | some m => toHex m | none => "-"
       s!"accepted log={hexOrDash (c.log ++ vm.log.reverse.flatten)} err={e} out={hexOrDash (outBytes vm.out)} blocks={"+".intercalate (vm.result.map fmtBlock)} binding={fmtBinding vm.binding}"
     | .panic _ => "panic"
     | .timeout _ => "timeout"
